@@ -45,6 +45,9 @@ def enumerated(tier, seed):
     # names as they come off a tape whose name field is NUL padded, and a disk filled with 68 one-granule files
     yield dict(order=None, files=[f("AB\0\0\0\0\0\0", "ml", 300, 1), f("\0" * 8, "basic", 2400, 2), f("\0X", "ascii", 100, 3), f("LAST", "ml", 10, 4)])
     yield dict(order=None, files=[f("T%d" % i, ("ml", "basic", "ascii")[i % 3], 20 + i, i) for i in range(68)])
+    # machine-language files whose entry or load address is $0000 (and the other one is not)
+    yield dict(order=None, files=[dict(f("ZEROEX", "ml", 300, 1), load=0x7000, exec=0), dict(f("ZEROLD", "ml", 2400, 2), load=0, exec=0x1234),
+                                  dict(f("BOTH0", "ml", 10, 3), load=0, exec=0), dict(f("TOP", "ml", 10, 4), load=0xFFFF, exec=0xFFFF)])
     # names with letters of the 8-bit character set (one byte each in the directory field), in granules before and after
     for order in _ORDERS[:2]:
         yield dict(order=order, files=[f("FIRST", "ml", 5000, 1), f("CAF\u00c9", "ml", 300, 2), f("\u00d1A\u00fc", "basic", 2400, 3), f("LAST", "ascii", 100, 4)])
@@ -116,6 +119,13 @@ def execute(case):
         if e.length != want:
             return viol("after add_file #{}: directory/FAT imply {} bytes, the stored stream is {}".format(idx, e.length, want),
                         fid="C08:implied-length", labels=labels)
+        if f["ftype"] == 2 and f["dtype"] == 0:
+            # header and trailer of a machine-language stream carry this file's length, load and entry address
+            r = dskref.read(bytes(bytearray(image)))[-1]
+            if (r["load"], r["exec"]) != (f["load"], f["exec"]) or bytes(r["data"]) != data:
+                return viol("after add_file #{}: stream header / trailer give load ${:04X} entry ${:04X} and {} data bytes, the file has "
+                            "${:04X} / ${:04X} / {}".format(idx, r["load"], r["exec"], len(r["data"]), f["load"], f["exec"], len(data)),
+                            fid="C08:stream-fields", labels=labels)
     # the whole list again through the container's add_files, including files that no longer fit: if the call returns
     # normally the image it leaves behind is an image the tool would write, and must be a valid filesystem
     if len(files) >= 2:
